@@ -151,10 +151,34 @@ func mkEndpoint(id string, ids []string, variant string) any {
 		ip := calinet.MustParseIP("fe80::1")
 		v.IPv4Gateway = &ip
 	default:
-		panic("variant " + variant)
+		if !schemaInvalidWEP(v, variant) {
+			panic("variant " + variant)
+		}
+		return v
 	}
 	return v
 }
+
+// schemaInvalidWEP applies a variant that fails the v1 SCHEMA validation of a WorkloadEndpoint while
+// passing validateWorkloadEndpoint (name present, no spoofed prefixes).
+func schemaInvalidWEP(v *model.WorkloadEndpoint, variant string) bool {
+	switch variant {
+	case "portproto": // named port whose protocol is not tcp/udp/sctp
+		v.Ports = []model.EndpointPort{{Name: "http", Protocol: numorstring.ProtocolFromStringV1("icmp"), Port: 80}}
+	case "portzero": // named port number 0 (validate:"gt=0")
+		v.Ports = []model.EndpointPort{{Name: "http", Protocol: numorstring.ProtocolFromStringV1("tcp"), Port: 0}}
+	case "badnat": // NAT entry without an external IP (validate:"ip")
+		v.IPv4NAT = []model.IPNAT{{IntIP: calinet.MustParseIP("10.0.0.1")}}
+	case "badgw6": // IPv4 address as the IPv6 gateway (validate:"ipv6")
+		ip := calinet.MustParseIP("10.0.0.1")
+		v.IPv6Gateway = &ip
+	default:
+		return false
+	}
+	return true
+}
+
+var wepSchemaVariants = []string{"portproto", "portzero", "badnat", "badgw6"}
 
 func mkRules(rid string, variant string) *model.ProfileRules {
 	var n int
@@ -339,7 +363,7 @@ func genOp(h *rt.H) string {
 			if id[0] == 'h' {
 				variant = rt.Pick(h, []string{"badname", "badprofile"})
 			} else {
-				variant = rt.Pick(h, []string{"noname", "spoof", "badgw"})
+				variant = rt.Pick(h, append([]string{"noname", "spoof", "badgw"}, wepSchemaVariants...))
 			}
 		}
 		ids := genIDs(h)
